@@ -5,12 +5,18 @@ import (
 	"fmt"
 	"os"
 
+	"verif/vs/c03"
 	"verif/vs/c06"
+	"verif/vs/c07"
+	"verif/vs/c17"
 	"verif/vs/run"
 )
 
 var checks = map[string]*run.Check{
+	"C03": c03.Check,
 	"C06": c06.Check,
+	"C07": c07.Check,
+	"C17": c17.Check,
 }
 
 func main() {
